@@ -828,6 +828,204 @@ def restore_pristine_pypdf():
             setattr(obj, nm, v)
 
 
+# ============================================================================ the AES fallback's padding / CBC layer
+def _page_view(docs):
+    return [[(p.text, [(getattr(i, "data", None), getattr(i, "caption", None), getattr(i, "width", None),
+                        getattr(i, "height", None)) for i in p.images], len(p.tables)) for p in d.pages]
+            + [d.metadata.total_pages] for d in docs]
+
+
+def pkcs7_cases(ctx, cases, info):
+    """Every string and stream of an AES PDF passes through _pkcs7_unpad(CBC-decrypt(...)).  Three layers:
+    (1) the helpers against the Coq model (Pad.v) on all length residues, every valid padding value and
+        invalid paddings; (2) the patched CryptAES / aes_cbc_* against the harness's independent AES, for
+        AES-128 and AES-256 keys and plaintext lengths covering every residue mod 16 on both sides of block
+        boundaries; (3) (pdf_boundary_cases) whole PDFs whose string / stream lengths sweep the residues."""
+    from sharepoint2text.parsing.extractors.pdf import _pypdf_aes_fallback as fbk
+    rng = ctx.rng
+    BS = 16
+
+    def rb(n):
+        return bytes(rng.randrange(256) for _ in range(n))
+    # ---- (1) helpers
+    datas = []
+    for n in list(range(0, 50)) + [63, 64, 65, 255, 256, 257]:
+        datas.append(("pad", rb(n)))
+        datas.append(("pad", bytes([rng.choice([0, 16, 15, 1])]) * n))     # data that itself looks like padding
+    for kind, d in datas:
+        try:
+            padded = bytes(fbk._pkcs7_pad(d, BS))
+        except Exception as e:  # noqa
+            ctx.finding("pkcs7-pad-raises", f"_pkcs7_pad raised {type(e).__name__} on {len(d)} bytes", {"data": d})
+            continue
+        cases.append(f"CPad {BS} {cb(d)} {cb(padded)}")
+        info.append(("pkcs7-pad", len(d), "", len(padded)))
+        try:
+            back = bytes(fbk._pkcs7_unpad(padded, BS))
+        except Exception as e:  # noqa
+            back = None
+        ctx.case(("pkcs7", d), True, kind=f"pkcs7-roundtrip:len%16={len(d) % 16}")
+        if back != d:
+            ctx.finding(f"pkcs7-roundtrip:len%16=={len(d) % 16}",
+                        f"_pkcs7_unpad(_pkcs7_pad(d)) != d for len(d)={len(d)} ({'raised' if back is None else str(len(back)) + ' bytes back'})",
+                        {"data": d, "padded": padded, "got": back})
+    un = []
+    for p in range(0, 20):                       # every claimed padding value, valid tail
+        for pre in (0, 1, 15, 16, 17, rng.randint(0, 40)):
+            un.append(rb(pre) + bytes([p]) * max(p, 1))
+    for _ in range(ctx.n(80, 600)):              # arbitrary tails: wrong fill bytes, p > len, big p
+        n = rng.randint(0, 36)
+        d = bytearray(rb(n))
+        if n and rng.random() < 0.7:
+            p = rng.choice([0, 1, 2, 15, 16, 17, 32, 255, rng.randrange(256)])
+            d[-1] = p
+            if rng.random() < 0.6:
+                for k in range(1, min(p, n) + 1):
+                    d[-k] = p
+                if p and rng.random() < 0.3 and n >= 2:
+                    d[-min(p, n)] ^= 1
+        un.append(bytes(d))
+    for d in un:
+        try:
+            got = bytes(fbk._pkcs7_unpad(d, BS))
+            term = f"(Some {cb(got)})"
+        except ValueError:
+            got, term = None, "None"
+        except Exception as e:  # noqa
+            ctx.finding("pkcs7-unpad-raises", f"_pkcs7_unpad raised {type(e).__name__}", {"data": d})
+            continue
+        cases.append(f"CUnpad {BS} {cb(d)} {term}")
+        info.append(("pkcs7-unpad", d.hex()[:60], "", None if got is None else len(got)))
+        ctx.case(("unpad", d), True, kind="pkcs7-unpad")
+    # ---- (2) CryptAES / CBC of the patched provider vs the independent AES
+    restore_pristine_pypdf()
+    try:
+        if not fbk.patch_pypdf_fallback_aes():
+            ctx.count("aes-fallback-not-in-use")
+            return
+        import pypdf._crypt_providers._fallback as fb
+        lengths = sorted(set(list(range(0, 50)) + [79, 80, 81, 511, 512, 513] + [rng.randint(50, 400) for _ in range(ctx.n(6, 60))]))
+        for klen in (16, 32):
+            for n in lengths:
+                key, iv, d = rb(klen), rb(16), rb(n)
+                pad = 16 - n % 16
+                ct = iv + W.aes_cbc_encrypt(key, iv, d + bytes([pad]) * pad)     # what a conforming writer stores
+                tag = f"aes{klen * 8}:len%16=={n % 16}"
+                ctx.case(("cryptaes", klen, n), True, kind="cryptaes:" + ("boundary" if n % 16 == 0 else "inner"))
+                try:
+                    got = bytes(fb.CryptAES(key).decrypt(ct))
+                except Exception as e:  # noqa
+                    got = repr(e)
+                if got != d:
+                    ctx.finding(f"cryptaes-decrypt:{tag}", f"fallback CryptAES.decrypt of a correctly encrypted {n}-byte plaintext "
+                                f"returns {len(got) if isinstance(got, bytes) else got} (AES-{klen * 8})",
+                                {"key": key, "ciphertext": ct, "plaintext": d, "got": got})
+                try:
+                    ct2 = bytes(fb.CryptAES(key).encrypt(d))
+                    ok = (len(ct2) == 16 + n + pad and ct2[16:] == W.aes_cbc_encrypt(key, ct2[:16], d + bytes([pad]) * pad)
+                          and bytes(fb.CryptAES(key).decrypt(ct2)) == d)
+                except Exception as e:  # noqa
+                    ok, ct2 = False, repr(e).encode()
+                if not ok:
+                    ctx.finding(f"cryptaes-encrypt:{tag}", f"fallback CryptAES.encrypt/decrypt round trip or ciphertext differs from "
+                                f"the independent AES for a {n}-byte plaintext (AES-{klen * 8})", {"key": key, "plaintext": d, "ciphertext": ct2})
+    finally:
+        restore_pristine_pypdf()
+
+
+def synthetic_pdf(content_mod, img_len, alt_len, algorithm=None, user="", owner="owner-pw", lines=8):
+    """One page: UNCOMPRESSED content stream whose length is = content_mod (mod 16), an unfiltered gray image of
+    img_len bytes with an /Alt string of alt_len characters.  Nothing hides a trailing padding block."""
+    from pypdf import PdfWriter
+    from pypdf.generic import (DecodedStreamObject, DictionaryObject, NameObject, NumberObject, TextStringObject)
+    w = PdfWriter()
+    page = w.add_blank_page(612, 792)
+    font = DictionaryObject({NameObject("/Type"): NameObject("/Font"), NameObject("/Subtype"): NameObject("/Type1"),
+                             NameObject("/BaseFont"): NameObject("/Helvetica")})
+    img = DecodedStreamObject()
+    img.set_data(bytes((7 * k + 3) & 0xFF for k in range(img_len)))
+    img.update({NameObject("/Type"): NameObject("/XObject"), NameObject("/Subtype"): NameObject("/Image"),
+                NameObject("/Width"): NumberObject(img_len), NameObject("/Height"): NumberObject(1),
+                NameObject("/ColorSpace"): NameObject("/DeviceGray"), NameObject("/BitsPerComponent"): NumberObject(8),
+                NameObject("/Alt"): TextStringObject("".join(chr(97 + k % 26) for k in range(alt_len)))})
+    page[NameObject("/Resources")] = DictionaryObject({
+        NameObject("/Font"): DictionaryObject({NameObject("/F1"): w._add_object(font)}),
+        NameObject("/XObject"): DictionaryObject({NameObject("/Im0"): w._add_object(img)})})
+    ops = ["BT /F1 12 Tf 72 760 Td 14 TL"] + ["(line %02d alpha beta gamma) Tj T*" % i for i in range(lines)] + ["ET"]
+    ops.append("q 40 0 0 40 72 300 cm /Im0 Do Q")
+    data = "\n".join(ops).encode("ascii") + b"\n"
+    while len(data) % 16 != content_mod:
+        data += b"\n"
+    st = DecodedStreamObject()
+    st.set_data(data)
+    page[NameObject("/Contents")] = w._add_object(st)
+    if algorithm is not None:
+        with (independent_aes_for_writing() if algorithm.startswith("AES") else contextlib.nullcontext()):
+            w.encrypt(user_password=user, owner_password=owner, algorithm=algorithm)
+            out = io.BytesIO()
+            w.write(out)
+    else:
+        out = io.BytesIO()
+        w.write(out)
+    return out.getvalue()
+
+
+def pdf_boundary_cases(ctx, e2e):
+    """Empty-user-password twins of synthetic PDFs: the lengths of the content stream, the image stream and the
+    /Alt string sweep the residues mod 16 (quick: all 16 residues jointly for AES-128, a sample for the other
+    algorithms and for independent residues; thorough: all residues for every algorithm)."""
+    from sharepoint2text.parsing.extractors.pdf.pdf_extractor import read_pdf
+    rng = ctx.rng
+    plans = []
+    full = ["AES-128"] if ctx.tier == "quick" else ["AES-128", "AES-256-R5", "RC4-128", "AES-256"]
+    for alg in full:
+        for r in range(16):
+            plans.append((alg, r, 16 + r if r else 32, 16 + r if r else 16))
+    for alg in (["AES-256-R5", "RC4-128", "RC4-40"] if ctx.tier == "quick" else ["RC4-40"]):
+        for r in (0, 1, 15):
+            plans.append((alg, r, 16 + r if r else 32, 16 + r if r else 16))
+    for _ in range(ctx.n(6, 40)):          # independent residues per object
+        plans.append((rng.choice(["AES-128", "AES-256-R5"]), rng.randrange(16), rng.randint(1, 70), rng.randint(0, 40)))
+    ref_cache = {}
+    for alg, cmod, ilen, alen in plans:
+        k = (cmod, ilen, alen)
+        try:
+            if k not in ref_cache:
+                plain = synthetic_pdf(cmod, ilen, alen)
+                ref_cache[k] = (plain, _page_view(list(read_pdf(io.BytesIO(plain), path="x.pdf"))))
+            plain, ref = ref_cache[k]
+            data = synthetic_pdf(cmod, ilen, alen, algorithm=alg)
+        except Exception as e:  # noqa
+            ctx.count(f"pdf-writer-unavailable:{alg}")
+            ctx.extra.setdefault("pdf_writer_errors", {})[alg] = repr(e)[:200]
+            continue
+        if not ref or not ref[0] or not ref[0][0][0].strip() or not ref[0][0][1]:
+            ctx.obligation("harness:synthetic-pdf-has-text-and-image", False, f"plain synthetic PDF extracts as {ref!r}"[:300])
+            continue
+        restore_pristine_pypdf()
+        try:
+            got = _page_view(list(read_pdf(io.BytesIO(data), path="x.pdf")))
+            err = None
+        except Exception as e:  # noqa
+            got, err = None, f"{type(e).__name__}: {e}"
+        ctx.case(("pdf-boundary", alg, cmod, ilen, alen), True,
+                 kind=f"pdf-boundary:{alg}:{'multiple-of-16' if 0 in (cmod, ilen % 16, alen % 16) else 'inner'}")
+        if got != ref:
+            which = []
+            if got is not None:
+                if got[0][0][0] != ref[0][0][0]:
+                    which.append("page text")
+                if [i[0] for i in got[0][0][1]] != [i[0] for i in ref[0][0][1]]:
+                    which.append("image bytes")
+                if [i[1] for i in got[0][0][1]] != [i[1] for i in ref[0][0][1]]:
+                    which.append("image caption")
+            ctx.finding(f"pdf-boundary:{alg}:content%16=={cmod}:image%16=={ilen % 16}:alt%16=={alen % 16}",
+                        f"empty-user-password {alg} PDF (content stream {cmod} mod 16, image {ilen} bytes, /Alt {alen} chars) does not "
+                        f"extract like its plain original: {err or 'differs in ' + ', '.join(which)}",
+                        {"input": data, "original": plain, "expected": ref, "got": got})
+    restore_pristine_pypdf()
+
+
 def pdf_cases(ctx, cases, info, e2e):
     from pypdf import PdfReader, PdfWriter
     from sharepoint2text.parsing.extractors.pdf.pdf_extractor import read_pdf
@@ -878,10 +1076,7 @@ def pdf_cases(ctx, cases, info, e2e):
                         got = list(read_pdf(io.BytesIO(data), path="x.pdf"))
                     except Exception:  # noqa
                         got = None
-                    same = got is not None and len(got) == len(ref) and all(
-                        [(p.text, [i.data if hasattr(i, "data") else None for i in p.images], len(p.tables)) for p in a.pages] ==
-                        [(p.text, [i.data if hasattr(i, "data") else None for i in p.images], len(p.tables)) for p in b.pages]
-                        and a.metadata.total_pages == b.metadata.total_pages for a, b in zip(got, ref))
+                    same = got is not None and _page_view(got) == _page_view(ref)
                     if not same:
                         ctx.finding(key + ":content", f"empty-user-password PDF ({alg}) does not extract the same content as the "
                                     f"plain original: {o!r}", {"input": data, "original": base})
@@ -924,10 +1119,11 @@ def run(ctx):
     gen_skeletons(ctx)
     gen_tables(ctx)
 
-    ctx.prove("C08/Props.v", ["C08/Proofs.vo", "C08/Flow.vo"], expected=[
+    ctx.prove("C08/Props.v", ["C08/Proofs.vo", "C08/Flow.vo", "C08/Pad.vo"], expected=[
         "C08_biff_terminates", "C08_biff_filepass_any_position", "C08_xls_sound", "C08_xls_complete", "C08_ooxml_iff",
         "C08_ppt_iff", "C08_doc_fib_flag", "C08_odf_sound", "C08_odf_complete", "C08_zip_sound_any_member", "C08_zip_complete",
-        "C08_7z_needs_password_iff", "C08_7z_sound", "C08_7z_complete", "C08_epub_iff", "C08_pdf_iff", "C08_reject_before_yield"])
+        "C08_7z_needs_password_iff", "C08_7z_sound", "C08_7z_complete", "C08_epub_iff", "C08_pdf_iff", "C08_reject_before_yield",
+        "C08_pkcs7_roundtrip", "C08_pkcs7_full_block", "C08_pkcs7_padded_length", "C08_pkcs7_rejects_bad_byte"])
     ctx.prove("C08/Inst.v", ["Gen/C08Skeletons.vo", "Gen/C08Tables.vo", "C08/Flow.vo", "C08/Model.vo", "C08/Corr.vo"], expected=[
         "C08_all_guarded", "C08_no_result_before_rejection", "C08_skeleton_count", "C08_constants"])
 
@@ -940,7 +1136,8 @@ def run(ctx):
                       ("xls", lambda: xls_e2e(ctx, e2e)), ("ole", lambda: ole_cases(ctx, cases, info, e2e)),
                       ("doc", lambda: doc_cases(ctx, cases, info, e2e)), ("odf", lambda: odf_cases(ctx, cases, info, e2e)),
                       ("zip", lambda: zip_cases(ctx, cases, info, e2e)), ("7z", lambda: sevenz_cases(ctx, cases, info, e2e)),
-                      ("epub", lambda: epub_cases(ctx, cases, info, e2e)), ("pdf", lambda: pdf_cases(ctx, cases, info, e2e))):
+                      ("epub", lambda: epub_cases(ctx, cases, info, e2e)), ("pdf", lambda: pdf_cases(ctx, cases, info, e2e)),
+                      ("pkcs7+cbc", lambda: pkcs7_cases(ctx, cases, info)), ("pdf-boundary", lambda: pdf_boundary_cases(ctx, e2e))):
             t0 = time.time()
             f()
             timing[nm] = round(time.time() - t0, 1)
